@@ -40,3 +40,23 @@ func VerifFingerprints(p *Project) (map[string]string, error) {
 	}
 	return out, nil
 }
+
+// VerifApplyOptions runs RunOptions.apply on a project whose flags are (always, dryrun) and returns the flags afterwards.
+func VerifApplyOptions(always, dryrun bool, opts *RunOptions) (bool, bool) {
+	p := &Project{always: always, dryrun: dryrun}
+	opts.apply(p)
+	return p.always, p.dryrun
+}
+
+// VerifRecord reads the persisted record of a label: stamp, rerun flag, and whether it could be read.
+func VerifRecord(p *Project, rawlabel string) (string, bool, bool) {
+	l, err := label.Parse(rawlabel)
+	if err != nil {
+		return "", false, false
+	}
+	info, err := p.loadTargetInfo(l)
+	if err != nil {
+		return "", false, false
+	}
+	return info.Data, info.Rerun, true
+}
